@@ -100,12 +100,12 @@ def stepC12 (st : St) (op : String) (got : String) : StepResult St :=
   | "mkd" :: _ =>
     let r := runMkd f got
     { st := { st with last := r.built, mkExpected := some r.expected }, expected := none, cov := r.cov,
-      spec := r.spec.filter (fun s => s.clause == "builds" || s.clause == "no-panic"),
+      spec := r.spec.filter (fun s => s.clause == "builds" || s.clause == "no-panic" || s.clause == "covered-returned"),
       nontrivial := (r.built.map (·.signed)).getD false }
   | "mki" :: _ =>
     let r := runMki f got
     { st := { st with last := r.built, mkExpected := some r.expected }, expected := none, cov := r.cov,
-      spec := r.spec.filter (fun s => s.clause == "builds" || s.clause == "no-panic"),
+      spec := r.spec.filter (fun s => s.clause == "builds" || s.clause == "no-panic" || s.clause == "covered-returned"),
       nontrivial := (r.built.map (fun m => m.signed || m.hasParams)).getD false }
   | "delap" :: rest =>
     let cuts := rest.headD "c"
